@@ -470,6 +470,13 @@ def apply_modifies(ex, st, targets, cx_spec, hint='mod'):
             sort = z3.ArraySort(z3.IntSort(), T.sort_of(ft))
             st = st.setheap(key, ex.fresh_z(sort, hint + '_' + fname))
             continue
+        if t.startswith('all-lists:'):
+            lty = ex.tenv.parse(t[len('all-lists:'):])
+            n_ = ex.fresh_z(z3.ArraySort(z3.IntSort(), z3.IntSort()), hint + '_lens')
+            r_ = z3.Int('r!alen')
+            st = st.setheap(ex.lenkey_of(lty), n_).assume(z3.ForAll([r_], z3.Select(n_, r_) >= 0, patterns=[z3.Select(n_, r_)]))
+            st = st.setheap(ex.lkey_of(lty), ex.fresh_z(ex.lsort(lty.args[0]), hint + '_arrs'))
+            continue
         if t.startswith('heap:'):
             key = t[5:]
             old = ex.heap_get(st, key)
